@@ -108,6 +108,8 @@ zix_file_equals(ZixAllocator* const allocator,
     void* const    page_a = zix_aligned_alloc(allocator, page, page);
     void* const    page_b = zix_aligned_alloc(allocator, page, page);
 
+    errno = 0; // Nothing so far is a failure (including a refused page)
+
     // Fall back to using small stack buffers if allocation is unavailable
     char           stack_a[512];
     char           stack_b[512];
